@@ -1,3 +1,4 @@
+import re
 """Scanner-level properties: C03 (chain walk), C08 (filtered output), C14 (statistics), C18 (truncation)."""
 import os, struct, sys, json
 import fplib as L
@@ -396,8 +397,20 @@ def run_c18(ck, ctx):
         if got != want:
             ck.violation('prefix', {'what': 'findings for complete packets before the cut differ from the untruncated run', 'cut': c, 'args': args, 'via': via,
                                     'missing': [e for e in want if e not in got][:5], 'added': [e for e in got if e not in want][:5], 'input_hex': inp.hex()})
-        if len(extra) > 0 and any(e[1] not in ('E100', 'E101') and (e[0] is None or e[0] > c + 64) for e in extra):
-            pass
+        # the intact prefix is *analysed*, not just free of spurious findings: every RDH that is completely present
+        # is counted / shown, the rows of the complete packets are those of the untruncated run
+        nrdh = sum(1 for o in offs[:-1] if o + 64 <= c)
+        if mtok == 'cmd=viewrdh':
+            rows_t = [l for l in r.stdout.decode('utf-8', 'replace').split('\n') if re.match(r'^\s*[0-9A-Fa-f]+:', l)]
+            rows_f = [l for l in fr.stdout.decode('utf-8', 'replace').split('\n') if re.match(r'^\s*[0-9A-Fa-f]+:', l)]
+            if len(rows_t) != nrdh or rows_t[:ncomplete] != rows_f[:ncomplete]:
+                ck.violation('prefix', {'what': 'view rdh of the truncated input does not show exactly the RDHs that are completely present, identical to the untruncated run for complete packets',
+                                        'cut': c, 'via': via, 'rows': len(rows_t), 'rdhs_completely_present': nrdh, 'complete_packets': ncomplete, 'input_hex': inp.hex()})
+        elif r.stats is not None:
+            seen = r.stats['rdh_stats']['rdhs_seen']
+            if seen != nrdh:
+                ck.violation('prefix', {'what': 'the truncated run did not analyse exactly the RDHs that are completely present', 'cut': c, 'args': args, 'via': via,
+                                        'rdhs_seen': seen, 'rdhs_completely_present': nrdh, 'input_hex': inp.hex()})
         if mtok != 'cmd=viewrdh' and via == 'file':
             reqs.append(f'run {mtok} E=9 data={G.hexs(inp)}'); rj.append(r)
     model = L.run_driver(reqs)
